@@ -107,6 +107,11 @@ def run_lexical(chk, thorough):
         chk.count(("lex", fam, variant, src))
         desc = {"src": src}
         key = f"c06:{fam}{'.' + variant if variant else ''}"
+        if fam == "lexical.block":
+            # cause tag of a recorded finding: tab- and space-indented lines (or terminator) in one block
+            lead = {l[0] for l in src.split("\n")[1:] if l[:1] in (" ", "\t")}
+            if len(lead) == 2:
+                key += ":mixed-ws"
         if r["k"] != "parsed" or any(r[p].get("k") == "crash" for p in ("ir", "peg", "rowan")):
             chk.disagree(f"{key}:crash:{src!r}", desc, "accept or reject", r, "a parser panicked on a literal")
             continue
